@@ -173,9 +173,9 @@ def gen_systematic(rng, comp="ctxs"):
 WITNESS = {
     # regression (fixed by 21681e3): failed load of a newer revision; a@1 must be the latest revision again afterwards
     "latest": "ctxs\t0\ta1:-:-:0;a2:h1:-:0\tP 0 - ~\tP 1 - ~",
-    # features of an implemented module are flipped in place and stay (and so does to_compile)
+    # regression (fixed by af27b8d): features of an implemented module were flipped in place and stayed (and so did to_compile)
     "features": "ctxs\t0\ta1:-:f1,f2/f1:0;b1:a1:-:0\tP 0 - f1\tI a 1 f2\tP 1 - ~",
-    # the same on a module that is only imported; the importer is recompiled against the flipped features
+    # regression (af27b8d): the same on a module that is only imported; the importer was recompiled against the flipped features
     "features-imported": "ctxs\t0\ta1:-:f1,f2/f1:0;b1:a1:-:0\tP 1 - ~\tI a 1 f2",
     # explicit compile: a failed call removes what earlier successful calls added
     "explicit": "ctxs\t1\ta1:-:-:0;b1:-:-:0;c1:-:-:1\tP 0 - ~\tC\tP 1 - ~\tP 2 - ~\tC",
@@ -242,16 +242,9 @@ def classify(before, after, explicit, was_pending):
         # LY_CTX_EXPLICIT_COMPILE: unres.creating / unres.implementing accumulate over the calls until ly_ctx_compile, and the
         # revert of a failing call undoes (part of) what earlier successful calls did
         return "ctx-explicit-revert-pending"
-    bm, am = before[0], after[0]
-    if [(m[0], m[1]) for m in bm] == [(m[0], m[1]) for m in am]:
-        if all(b[:3] == a[:3] for b, a in zip(bm, am)) and any(b[3] != a[3] for b, a in zip(bm, am)):
-            # same modules and implemented flags, feature bits differ: lys_set_features() flipped them in place, either on
-            # an implemented module (_lys_set_implemented) or on one that was being implemented (lys_implement)
-            if any(b[3] != a[3] and b[2] == "I" for b, a in zip(bm, am)):
-                return "ctx-features-kept-implemented"
-            return "ctx-features-kept-imported"
-        # (only the answers of ly_ctx_get_module_latest differ: was the known finding ctx-latest-rev-lost, fixed by /repo
-        # commit 21681e3; if it shows up again it is a plain violation)
+    # Retired tags: same modules and implemented flags but different feature bits were ctx-features-kept-implemented /
+    # ctx-features-kept-imported (fixed by /repo commit af27b8d); only the answers of ly_ctx_get_module_latest different
+    # was ctx-latest-rev-lost (fixed by 21681e3). A reappearance is a plain violation.
     return None
 
 
